@@ -288,6 +288,51 @@ Example C04_lyd_merge_skip_refuted :
   end.
 Proof. vm_compute. repeat split; discriminate. Qed.
 
+(* lyd_unlink_siblings at the instance at position i of a (leaf-)list (lyds_split when i > 0): never a NULL dereference,
+   the remaining list is exactly the first i instances and the split-off run exactly the others (nothing lost), the tree of
+   the remaining list walks exactly its siblings, the run carries no tree (for i = 0 the whole list leaves with its tree). *)
+Theorem C04_lyds_split_spec :
+  forall A (cmp : A -> A -> comparison) (ideq : A -> A -> bool), total_preorder cmp -> is_identity ideq ->
+  forall (s : lst A) i, lyds_ok cmp s -> i < length (sibs s) ->
+  exists s1 s2, lyds_split cmp ideq s i = Some (s1, s2) /\ lyds_ok cmp s1 /\ lyds_ok cmp s2 /\
+                sibs s1 = firstn i (sibs s) /\ sibs s2 = skipn i (sibs s).
+Proof. intros A cmp ideq (H1 & H2) Hid. apply lyds_split_spec; assumption. Qed.
+Print Assumptions C04_lyds_split_spec.
+
+(* lyd_insert_child / lyd_insert_sibling of a chain of several siblings holding the run c of this (leaf-)list, into a
+   parent whose list is s: lyds_merge with all its cases (lyds_merge_nodes1 with / without creating the target's tree
+   first, lyds_merge_nodes2 front / among / back, lyds_merge_nodes3 in post-order of the source tree) or the plain move when
+   the target has no instance.  Premise beyond the invariants: a target without tree that meets a source WITH tree is
+   sorted (lyds_merge_nodes2 relies on it; the model answers None - the C code walks into NULL - otherwise).  Then: no NULL
+   dereference, tree = siblings, nothing lost or doubled, and the result is the stable sorted merge merge_result. *)
+Theorem C04_lyds_merge_spec :
+  forall A (cmp : A -> A -> comparison) (ideq : A -> A -> bool), total_preorder cmp -> is_identity ideq ->
+  forall s c : lst A, lyds_ok cmp s -> lyds_ok cmp c -> NoDup (sibs s ++ sibs c) ->
+    (no_tree s -> ~ no_tree c -> sorted cmp (sibs s)) ->
+  exists s', lyds_merge cmp ideq s c = Some s' /\ lyds_ok cmp s' /\
+             Permutation (sibs s ++ sibs c) (sibs s') /\
+             isort cmp (sibs s') = merge_result cmp s c /\
+             (~ no_tree s' -> sorted cmp (sibs s')).
+Proof. intros A cmp ideq (H1 & H2) Hid. apply lyds_merge_spec; assumption. Qed.
+Print Assumptions C04_lyds_merge_spec.
+
+(* Regression for /repo cefb23b (lyds_merge_nodes2 read *next_p uninitialised when lyds_merge_nodes2_back had nothing to
+   move; witness `i-2 i0 s0 i0 m`): the run -2 0 with its tree merged into a target holding only 0: all source instances
+   come before the target instance, the result is -2 0 0 with the tree moved to the new leader; and the merge of an
+   UNSORTED tree-less target with a source tree is the case the code does not handle (None = NULL dereference). *)
+Example C04_lyds_merge_nodes2_regression :
+  match lyds_split elt_cmp elt_ideq (mkLst [e (-2) 0; e 0 1] (Some (Node Black Leaf (e (-2) 0) (Node Red Leaf (e 0 1) Leaf)))) 0 with
+  | Some (s1, c) =>
+      sibs s1 = [] /\
+      match lyds_merge elt_cmp elt_ideq (mkLst [e 0 2] None) c with
+      | Some s' => sibs s' = [e (-2) 0; e 0 1; e 0 2] /\ match rbt s' with Some t => inorder t = sibs s' /\ rb_check elt_cmp t = true | None => False end
+      | None => False
+      end /\
+      lyds_merge elt_cmp elt_ideq (mkLst [e 3 2; e 1 3] None) c = None
+  | None => False
+  end.
+Proof. vm_compute. repeat split. Qed.
+
 (* a non-trivial value: 9 nodes with three equal keys inserted in zig-zag order, two removals; the tree passes
    the checker, has the invariant, and the equal keys 5 stand in insertion order (identities 1, 4, 6) *)
 Definition ex_ops : list (op (Z * N)) :=
